@@ -51,9 +51,9 @@ func init() {
 			e.Redirects[qRetrieveNet] = l.Pkgs[modPath].Func("verifRetrieveNetworkRuleAny")
 		},
 		AbstractHash: true,
-		MustReach:    []string{"c19.retrieval", "c19.inmemory", "c19.cached", "c19.failed", "c19.afterclose", "c19.dns", "c19.file.cached", "c19.file.lost"},
+		MustReach:    []string{"c19.retrieval", "c19.inmemory", "c19.cached", "c19.failed", "c19.afterclose", "c19.dns", "c19.file.cached", "c19.file.lost", "c19.dns.served"},
 		Bounds: map[string]string{
-			"quick":    "tables: 1..2 rules (shapes as C01), URL of 5..6 symbolic bytes, every storage retrieval during the query may fail independently (symbolic fault bit per call); DNS engine: 1..3 rules, every host-rule and network-rule retrieval may fail; storage: 1..3 retrievals of two indexes from a list that may fail at every call; storage over a file-backed list (file model) whose storage or file handle is closed, cold or warm, then retrieval, typed helpers and scan",
+			"quick":    "tables: 1..2 rules (shapes as C01), URL of 5..6 symbolic bytes, every storage retrieval during the query may fail independently (symbolic fault bit per call), and a rule none of whose retrievals failed must still be served; DNS engine: 1..3 rules, every host-rule and network-rule retrieval may fail; storage: 1..3 retrievals of two indexes from a list that may fail at every call; storage over a file-backed list (file model) whose storage or file handle is closed, cold or warm, then retrieval, typed helpers and scan",
 			"thorough": "URLs of 4..7 bytes; storage sequences up to 5 retrievals",
 		},
 		Outside:     []string{"the operating-system behaviour of a closed file descriptor beyond the file model (Seek and Read on a closed file return an error)", "more than 2 rules per request"},
